@@ -4,6 +4,7 @@ package c05
 
 import (
 	"bytes"
+	"encoding/hex"
 	"fmt"
 	"os"
 	"sort"
@@ -11,6 +12,7 @@ import (
 
 	"seehuhn.de/go/pdf/zzverif/checks/c08"
 	"seehuhn.de/go/pdf/zzverif/ref/pdffile"
+	"seehuhn.de/go/pdf/zzverif/ref/pdfsyn"
 )
 
 // The mutation menu.  Every mutant is one deviation from a seed (the pair
@@ -82,8 +84,34 @@ type seedSpace struct {
 	pairRefT []int
 	linkR    [][]site // reference sites under linkKeys, per layer
 	linkT    []int    // object numbers of the nodes of the linked structures (objects holding or receiving such a reference)
+	strs     []site   // string tokens of the file layer (each is encrypted on its own in an encrypted file)
 	regInts  []site   // integer tokens of the cross-reference / trailer region (layer 0)
 	regRefs  []site   // references in that region
+}
+
+// strLenMenu: the length of a string changed (in an encrypted file the string
+// is a ciphertext: an IV plus whole cipher blocks for AES).
+type strLenMut struct {
+	name  string
+	apply func(b []byte) ([]byte, bool)
+}
+
+func cutTo(n int) func(b []byte) ([]byte, bool) {
+	return func(b []byte) ([]byte, bool) {
+		if len(b) <= n {
+			return nil, false
+		}
+		return b[:n], true
+	}
+}
+
+var strLenMenu = []strLenMut{
+	{"last byte dropped", func(b []byte) ([]byte, bool) { return b[:max(len(b)-1, 0)], len(b) > 0 }},
+	{"first byte dropped", func(b []byte) ([]byte, bool) { return b[min(1, len(b)):], len(b) > 0 }},
+	{"one byte appended", func(b []byte) ([]byte, bool) { return append(append([]byte{}, b...), 0x41), true }},
+	{"15 bytes appended", func(b []byte) ([]byte, bool) { return append(append([]byte{}, b...), bytes.Repeat([]byte{0x41}, 15)...), true }},
+	{"cut to 0 bytes", cutTo(0)}, {"cut to 1 byte", cutTo(1)}, {"cut to 15 bytes", cutTo(15)}, {"cut to 16 bytes", cutTo(16)}, {"cut to 17 bytes", cutTo(17)},
+	{"cut to 31 bytes", cutTo(31)}, {"cut to 32 bytes", cutTo(32)}, {"cut to 33 bytes", cutTo(33)},
 }
 
 // group is a contiguous range of case indices.
@@ -130,6 +158,10 @@ func newSeedSpace(m *model) *seedSpace {
 		for i, t := range l.toks {
 			sp.toks = append(sp.toks, site{li, i})
 			switch t.kind {
+			case tString:
+				if li == 0 {
+					sp.strs = append(sp.strs, site{li, i})
+				}
 			case tInt:
 				sp.ints = append(sp.ints, site{li, i})
 				if l.isRef(i) {
@@ -378,6 +410,7 @@ func buildTable(seeds []*Seed, thorough bool) (*table, error) {
 		add("int", len(sp.ints)*len(intMenu))
 		add("ref", len(sp.refs)*len(sp.targets))
 		add("name", len(sp.names)*len(nameMenu))
+		add("strlen", len(sp.strs)*len(strLenMenu))
 		add("tokdel", len(sp.toks))
 		add("tokdup", len(sp.toks))
 		add("tokswap", len(sp.toks))
@@ -581,6 +614,19 @@ func (t *table) mutant(idx int) (data []byte, mu Mut, trivial bool, err error) {
 		}
 		li, es = tokEdit(s, []byte("/"+v))
 		mu.Desc = fmt.Sprintf("name -> /%s at %s", v, ctx(s))
+	case "strlen":
+		s, v := sp.strs[k/len(strLenMenu)], strLenMenu[k%len(strLenMenu)]
+		l := m.layers[s.layer]
+		val, err := pdfsyn.NewParser(l.tokText(s.tok)).Object()
+		if err != nil || val.K != pdfsyn.String {
+			return m.data, mu, true, nil
+		}
+		raw, ok := v.apply(val.S)
+		if !ok {
+			return m.data, mu, true, nil
+		}
+		li, es = tokEdit(s, []byte("<"+hex.EncodeToString(raw)+">"))
+		mu.Desc = fmt.Sprintf("string of %d bytes -> %s (%d bytes) at %s", len(val.S), v.name, len(raw), ctx(s))
 	case "tokdel":
 		s := sp.toks[k]
 		li, es = tokEdit(s, nil)
